@@ -369,6 +369,22 @@ def big_interfaces(run, n, sizes=(34, 40, 64)):
 @plan("C09")
 def c09(run):
     run.add(big_interfaces(run, 9 if run.tier == "quick" else 120))
+    # codes at the edges of narrower integer types, names that differ only in case, a constant named like a method
+    edge = ["", "0", "1", "65535", "65536", "65537", "2147483647", "2147483648", "4294967295", "4294967294", "16777216", "16777217"]
+    names = ["f", "F", "g", "K"]
+    for _ in range(400 if run.tier == "quick" else 6000):
+        toks = [D.T("package"), D.T("p", "IDENT"), D.T(";"), D.T("interface"), D.T("I", "IDENT"), D.T("{")]
+        for m in range(run.rng.randint(2, 5)):
+            if run.rng.random() < 0.15:
+                toks += [D.T("const"), D.T("int"), D.T(run.rng.choice(names), "IDENT"), D.T("="), D.T("1"), D.T(";")]
+                continue
+            toks += [D.T("void"), D.T(run.rng.choice(names), "IDENT"), D.T("("), D.T(")")]
+            c = run.rng.choice(edge)
+            if c:
+                toks += [D.T("="), D.T(c, "INTEGER")]
+            toks.append(D.T(";"))
+        toks.append(D.T("}"))
+        run.add([F.project_scenario({"files": [{"id": "a", "toks": toks}], "main": "a"}, "edge-codes")])
     return validation_plan(run, ["meth"], nt_methods2, 300, 3000,
         "TLC enumerates family 'meth': all method sequences up to length 3 (quick) / 4 (thorough) over 3 names x {no code, "
         "3 codes}, with and without interleaved constants; plus random interfaces with long sequences and large / "
@@ -680,6 +696,12 @@ def c19(run):
     g = F.ProjGen(run.rng, "C19")
     for _ in range(200 if q else 3000):
         scs.append(roundtrip_scenario(g.project()["files"], "rnd-project"))
+    # a large document (offsets beyond 65535, codes beyond 2^24, lines beyond 255)
+    big = "package p;\n" + "// filler line\n" * 300 + "/* " + "x" * 70000 + " */\ninterface Big {\n"
+    for k in range(40):
+        big += "  /** m%d */ oneway void m%d(in int a, out int[] b) = %d;\n" % (k, k, 16777216 + k)
+    big += "}\n"
+    scs.append(roundtrip_scenario([{"id": "big", "text": big}], "big-doc"))
     # rich documents with annotations, values and doc comments of every shape (also the empty `/** */`)
     rg = D.RichGen(run.rng, maxdepth=2)
     for k in range(300 if q else 4000):
